@@ -437,15 +437,68 @@ fn ms_pairs<C: miniscript::ScriptContext>(a: &Node, b2: &Node, c: &Node, edit: &
     Ok(true)
 }
 
+struct IdentAny;
+impl<Pk: miniscript::MiniscriptKey> miniscript::Translator<Pk> for IdentAny {
+    type TargetPk = Pk;
+    type Error = ();
+    fn pk(&mut self, pk: &Pk) -> Result<Pk, ()> { Ok(pk.clone()) }
+    fn sha256(&mut self, h: &Pk::Sha256) -> Result<Pk::Sha256, ()> { Ok(h.clone()) }
+    fn hash256(&mut self, h: &Pk::Hash256) -> Result<Pk::Hash256, ()> { Ok(h.clone()) }
+    fn ripemd160(&mut self, h: &Pk::Ripemd160) -> Result<Pk::Ripemd160, ()> { Ok(h.clone()) }
+    fn hash160(&mut self, h: &Pk::Hash160) -> Result<Pk::Hash160, ()> { Ok(h.clone()) }
+}
+
+/// The same miniscript reached through different construction paths must be one value.
+fn ms_paths<C: miniscript::ScriptContext>(a: &Node, rep: &mut Report) -> Result<bool, Failure>
+where
+    C::Key: std::str::FromStr + miniscript::FromStrKey + miniscript::ToPublicKey,
+{
+    use miniscript::ToPublicKey;
+    let text = ast::print(a, true);
+    let ms = match Miniscript::<C::Key, C>::from_str_with_validation_params(&text, &C::CONSENSUS) {
+        Ok(m) => m,
+        Err(_) => {
+            rep.class("rejected-by-parser");
+            return Ok(false);
+        }
+    };
+    let truth = ast::from_lib(&ms);
+    if let Ok(m2) = Miniscript::<C::Key, C>::from_ast(ms.node.clone()) {
+        pair("miniscript/from_ast", &ms, &m2, true, "from_ast")?;
+    }
+    if let Ok(m2) = Miniscript::<C::Key, C>::from_str_with_validation_params(&ms.to_string(), &C::CONSENSUS) {
+        pair("miniscript/reparse", &ms, &m2, true, "reparse")?;
+    }
+    if let Ok(m2) = ms.translate_pk(&mut IdentAny) {
+        let m2: Miniscript<C::Key, C> = m2;
+        pair("miniscript/translate", &ms, &m2, ast::from_lib(&m2) == truth, "translate")?;
+    }
+    let script = ms.encode();
+    if let Ok(dec) = Miniscript::<C::Key, C>::decode_consensus(&script) {
+        let mut map = std::collections::BTreeMap::new();
+        for k in ms.iter_pk() {
+            map.insert(k.to_pubkeyhash(C::sig_type()), k);
+        }
+        let sub = dec.substitute_raw_pkh(&map);
+        let same = ast::from_lib(&sub) == truth;
+        rep.class(if same { "paths:decode-substitute-same" } else { "paths:decode-substitute-other-ast" });
+        pair("miniscript/decode-substitute", &ms, &sub, same, "decode+substitute_raw_pkh")?;
+        // substituting with an empty map is the identity
+        let none = dec.substitute_raw_pkh(&std::collections::BTreeMap::new());
+        pair("miniscript/substitute-nothing", &dec, &none, true, "substitute_raw_pkh(empty)")?;
+    }
+    Ok(true)
+}
+
 impl Check for C19 {
     fn id(&self) -> &'static str { "C19" }
     fn rule(&self) -> String {
-        "case = (a, b, c): a random value, b = a one-edit neighbour of a (threshold k +-1, child/key added or removed, one key / hash / lock changed, children swapped, sibling fragment, wrapper changed) or an independent value or a re-parse of a, c = independent; for Miniscript and Terminal (String keys, 4 contexts, MAX parameters), Descriptor (wsh/sh/sh-wsh/tr/bare wrappers, same leaves in different tree shapes), Concrete and Semantic policies. Oracle: structural equality of the mirror AST (derived Eq on a plain enum). Checked: == iff mirror-equal iff equal strings; cmp never panics, Equal iff ==, antisymmetric, transitive and congruent on the triple; partial_cmp == Some(cmp); equal => equal hash; clone equal; BTreeSet/HashSet cardinality. Non-trivial = one-edit neighbour pairs; distinct by (type, a, b).".into()
+        "case = (a, b, c): a random value, b = a one-edit neighbour of a (threshold k +-1, child/key added or removed, one key / hash / lock changed, children swapped, sibling fragment, wrapper changed) or an independent value or a re-parse of a, c = independent; for Miniscript and Terminal (String keys, 4 contexts, MAX parameters), lane `paths`: one miniscript with real keys (compressed / uncompressed / x-only) reached through from_str, from_ast, print->parse, identity translate_pk and decode(encode)+substitute_raw_pkh must be ==/Equal/same hash whenever the mirror ASTs agree (non-trivial there = contains pk_h), Descriptor (wsh/sh/sh-wsh/tr/bare wrappers, same leaves in different tree shapes), Concrete and Semantic policies. Oracle: structural equality of the mirror AST (derived Eq on a plain enum). Checked: == iff mirror-equal iff equal strings; cmp never panics, Equal iff ==, antisymmetric, transitive and congruent on the triple; partial_cmp == Some(cmp); equal => equal hash; clone equal; BTreeSet/HashSet cardinality. Non-trivial = one-edit neighbour pairs; distinct by (type, a, b).".into()
     }
     fn lanes(&self, tier: Tier) -> Vec<(&'static str, usize, usize)> {
         match tier {
-            Tier::Quick => vec![("miniscript", 1_200_000, 300), ("descriptor", 450_000, 300), ("policy", 900_000, 200)],
-            Tier::Thorough => vec![("miniscript", 24_000_000, 400), ("descriptor", 9_000_000, 400), ("policy", 18_000_000, 300)],
+            Tier::Quick => vec![("miniscript", 1_200_000, 300), ("paths", 300_000, 300), ("descriptor", 450_000, 300), ("policy", 900_000, 200)],
+            Tier::Thorough => vec![("miniscript", 24_000_000, 400), ("paths", 6_000_000, 400), ("descriptor", 9_000_000, 400), ("policy", 18_000_000, 300)],
         }
     }
     fn run_case(&self, lane: &str, src: &mut Src, rep: &mut Report) -> Result<(), Failure> {
@@ -477,6 +530,25 @@ impl Check for C19 {
         }
         let ctx = *src.pick(&[Ctx::Segwitv0, Ctx::Tap, Ctx::Legacy, Ctx::Bare]);
         let size = src.range(1, 10);
+        if lane == "paths" {
+            let mut cfg = Cfg::new(ctx, size);
+            cfg.key_style = KeyStyle::Hex;
+            cfg.allow_uncompressed = ctx == Ctx::Legacy || ctx == Ctx::Bare;
+            cfg.max_multi_n = 4;
+            let a = gen::gen_ms(src, &cfg);
+            rep.desc = format!("{:?} {}", ctx, ast::print(&a, true));
+            let ok = with_ctx!(ctx, ms_paths, &a, rep)?;
+            let mut has_pkh = false;
+            a.walk(&mut |x| {
+                if let Node::PkH(_) = x {
+                    has_pkh = true;
+                }
+            });
+            if ok && has_pkh {
+                rep.nontrivial_by(&(ctx as u8, ast::print(&a, false)));
+            }
+            return Ok(());
+        }
         let mut cfg = Cfg::new(ctx, size);
         cfg.key_style = KeyStyle::Hex;
         cfg.legacy_restrict = false;
